@@ -63,6 +63,37 @@ pub enum RespDatum {
     /// 1..=8 character items handed over as ONE piece of response data (a `Vec` when the count
     /// is even, an `ArrayVec` when odd): items separated by ',', however short an item's text is
     ChrList(Vec<B>),
+    /// a device-defined composite `ResponseData` type: its parts (simple kinds) written one after the other with
+    /// `Formatter::data_separator()` between them, the way the library's own `Error` type is written
+    Composite(Vec<RespDatum>),
+    /// an `Error` handed over as response data (what `SYSTem:ERRor?` does)
+    Err(ErrSpec),
+}
+
+/// The device-defined composite response type behind `RespDatum::Composite`.
+pub struct CompositeData<'a>(pub &'a [RespDatum]);
+
+impl<'a> ResponseData for CompositeData<'a> {
+    fn format_response_data(&self, f: &mut dyn scpi::parser::response::Formatter) -> Result<()> {
+        for (i, d) in self.0.iter().filter(|d| d.is_simple()).enumerate() {
+            if i > 0 {
+                f.data_separator()?;
+            }
+            match d {
+                RespDatum::I32(v) => v.format_response_data(f)?,
+                RespDatum::U8(v) => v.format_response_data(f)?,
+                RespDatum::U64(v) => v.format_response_data(f)?,
+                RespDatum::Bool(v) => v.format_response_data(f)?,
+                RespDatum::Str(s) => (&s[..]).format_response_data(f)?,
+                RespDatum::Block(s) => Arbitrary(&s[..]).format_response_data(f)?,
+                RespDatum::Chr(s) => Character(&s[..]).format_response_data(f)?,
+                RespDatum::Expr(s) => Expression(&s[..]).format_response_data(f)?,
+                RespDatum::Err(e) => e.build().format_response_data(f)?,
+                _ => {}
+            }
+        }
+        Ok(())
+    }
 }
 
 /// `n` pattern bytes with a static lifetime, built once per distinct `n`.
@@ -80,6 +111,10 @@ pub fn zero_block(n: u32) -> &'static [u8] {
 }
 
 impl RespDatum {
+    /// The kinds a composite is made of.
+    pub fn is_simple(&self) -> bool {
+        !matches!(self, RespDatum::BigBlock(_) | RespDatum::ManyU8(_) | RespDatum::ZeroBlock(_) | RespDatum::ChrList(_) | RespDatum::Composite(_))
+    }
     /// Independent encoding (not through the library).
     pub fn encode(&self, out: &mut Vec<u8>) {
         match self {
@@ -104,6 +139,28 @@ impl RespDatum {
                     }
                     out.extend_from_slice(it);
                 }
+            }
+            RespDatum::Composite(parts) => {
+                let mut first = true;
+                for d in parts.iter().filter(|d| d.is_simple()) {
+                    if !first {
+                        out.push(b',');
+                    }
+                    first = false;
+                    d.encode(out);
+                }
+            }
+            RespDatum::Err(e) => {
+                // <code>,"<description>[;<device-dependent info>]" with quotes doubled (SCPI-99 21.8)
+                let err = e.build();
+                out.extend_from_slice(err.get_code().to_string().as_bytes());
+                out.push(b',');
+                let mut text = err.get_message().to_vec();
+                if let Some(x) = err.get_extended() {
+                    text.push(b';');
+                    text.extend_from_slice(x);
+                }
+                out.extend_from_slice(&crate::model::resp::encode_string(&text));
             }
             RespDatum::ManyU8(n) => {
                 for i in 0..*n {
@@ -162,6 +219,10 @@ impl ErrSpec {
                 3 => base.extended(long[0]),
                 5 => base.extended(long[1]),
                 7 => base.extended(long[2]),
+                // short texts with quotes: a long first part and a short rest, a lone quote, quotes at both ends
+                2 => base.extended(b"slot \"A\" reports a fault in the supply rail of module 2\";x"),
+                4 => base.extended(b"\""),
+                6 => base.extended(b"\"quoted\""),
                 _ => base.extended(b"injected detail"),
             }
         } else {
@@ -493,6 +554,8 @@ impl Rec {
                     RespDatum::Expr(s) => resp.data(Expression(&s[..])),
                     RespDatum::BigBlock(n) => resp.data(Arbitrary(big_block(*n))),
                     RespDatum::ZeroBlock(n) => resp.data(Arbitrary(zero_block(*n))),
+                    RespDatum::Composite(parts) => resp.data(CompositeData(&parts[..])),
+                    RespDatum::Err(e) => resp.data(e.build()),
                     RespDatum::ChrList(items) if items.len() % 2 == 0 => resp.data(items.iter().map(|i| Character(&i[..])).collect::<Vec<_>>()),
                     RespDatum::ChrList(items) => resp.data(items.iter().take(8).map(|i| Character(&i[..])).collect::<arrayvec::ArrayVec<_, 8>>()),
                     RespDatum::ManyU8(n) => {
